@@ -151,7 +151,7 @@ theorem step_WS (cfg : Cfg) (s : St) (op : Op) (hB1 : s.ver ≠ 5 → B)
   · exact ⟨rfl, id⟩
   · exact ⟨rfl, id⟩
   · exact ⟨rfl, id⟩
-  · exact WStep_of_fr (releaseIfUsed_fr _ _) (fun L pw cx h => releaseIfUsed_all W_lax _ _ h)
+  · exact WStep_of_fr (releasePacketId_fr _ _) (fun L pw cx h => by rw [releasePacketId_ev']; exact releaseIfUsed_all W_lax _ _ h)
   · exact WStep_of_fr (eraseStoredPublish_fr _ _) (fun L pw cx h => eraseStoredPublish_all W_lax _ _ h)
   · exact ⟨rfl, id⟩
   · exact WStep_of_fr (restorePackets_fr _ _) (fun L pw cx h => by simpa using h)
